@@ -203,6 +203,52 @@ func checkC02(args []string) {
 				run.Violate("pixels|large-partitions", name+": decodes to other pixels than the unpartitioned encode", name)
 			}
 		}
+		// busy pictures in which only a handful of macroblocks have all-zero coefficients (one small flat patch): the
+		// share of skipped macroblocks lies near 1 %, where encoders decide whether signalling skips pays off
+		for pi, patch := range [][4]int{{96, 64, 32, 32}, {0, 0, 16, 16}, {208, 224, 48, 32}} {
+			busy := noiseNRGBA(rng, 256, 256, 0)
+			for y := patch[1]; y < patch[1]+patch[3]; y++ {
+				for x := patch[0]; x < patch[0]+patch[2]; x++ {
+					i := busy.PixOffset(x, y)
+					busy.Pix[i], busy.Pix[i+1], busy.Pix[i+2] = 90, 140, 60
+				}
+			}
+			var ref image.Image
+			for _, parts := range []int{0, 1, 2} {
+				o := *webp.DefaultOptions()
+				o.Quality, o.Method, o.Partitions = float32(60+10*pi), 2+pi, parts
+				name := fmt.Sprintf("256x256 noise with a flat %dx%d patch at (%d,%d) lossy q%v m%d partitions=%d", patch[2], patch[3], patch[0], patch[1], o.Quality, o.Method, parts)
+				out, err, pan := safeEncode(busy, &o)
+				run.Eval(name)
+				if pan != nil || err != nil {
+					run.Violate("encode-fails|few-skipped-macroblocks", fmt.Sprintf("%s: %v %v", name, err, pan), name)
+					continue
+				}
+				id := fmt.Sprintf("skip-%d-p%d", pi, parts)
+				e := vx.NewExpect("source")
+				e.W, e.H, e.Anim, e.Alpha, e.NFrames = 256, 256, 0, 0, 1
+				files = append(files, vx.FileCase{ID: id, Must: "accept", Bytes: vx.Ints(out), X: []vx.Expect{e}})
+				info[id] = name + "||few-skipped-macroblocks"
+				im, derr := guardedDecode(out)
+				if derr != nil {
+					run.Violate("undecodable|few-skipped-macroblocks", name+": Encode returned nil but Decode fails: "+derr.Error(), name)
+					continue
+				}
+				if ref == nil {
+					ref = im
+					// the flat patch must come back flat (its macroblocks carry no coefficients): a decoder that lost
+					// synchronisation paints noise there
+					if yc, ok := im.(*image.YCbCr); ok {
+						cx, cy := patch[0]+patch[2]/2, patch[1]+patch[3]/2
+						if d := int(yc.Y[yc.YOffset(cx, cy)]) - int(yc.Y[yc.YOffset(cx+1, cy+1)]); d > 24 || d < -24 {
+							run.Violate("pixels|few-skipped-macroblocks", fmt.Sprintf("%s: the flat patch decodes with a luma step of %d between neighbours", name, d), name)
+						}
+					}
+				} else if !sameImage(im, ref) {
+					run.Violate("pixels|few-skipped-macroblocks", name+": decodes to other pixels than the unpartitioned encode", name)
+				}
+			}
+		}
 		an := noiseNRGBA(rng, 600, 400, 2)
 		for _, c := range []struct {
 			name string
